@@ -26,7 +26,15 @@ def gen_geometry(rng, tier, small=False):
     fch1 = float(common.pick(rng, common.UGLY_FCH1)) if rng.random() < 0.7 else float(10 ** rng.uniform(8, 10.6))
     if fch1 - fchans * df < 1e6:
         fch1 = fchans * df + 1e8
-    return dict(fchans=fchans, tchans=tchans, df=df, dt=dt, fch1=fch1, asc=bool(rng.integers(2)), neg_df=bool(rng.random() < 0.15))
+    int_geom = bool(rng.random() < 0.06)
+    if int_geom:
+        # a geometry written with plain Python integers (df=2, dt=1, fch1=1420000000): every derived frequency is then an integer type
+        df, dt = float(common.pick(rng, [1, 2, 3])), float(common.pick(rng, [1, 2]))
+        fch1 = float(common.pick(rng, [1420000000, 6000000000, 1000000]))
+        if fch1 - fchans * df < 1e5:
+            fch1 = float(int(fchans * df) + 1000000)
+    return dict(fchans=fchans, tchans=tchans, df=df, dt=dt, fch1=fch1, asc=bool(rng.integers(2)), neg_df=bool(rng.random() < 0.15),
+                int_geom=int_geom)
 
 
 def axes_of(g):
